@@ -70,8 +70,25 @@ func rewrite(src, dst, pointRe, subs string) error {
 	// textual substitutions "old=>new;;old2=>new2" (used to route `range <map>` through vsync.RangeOrder);
 	// a substitution whose left side is absent is skipped: the rewrite must never break a modified tree
 	for _, sub := range strings.Split(subs, ";;") {
+		if strings.HasPrefix(sub, "@range|") {
+			// "@range|<func>|<map expr>|<label func>": every `for k, v := range <map expr>` inside <func> visits
+			// the keys in the order vsync.RangeOrder decides (found by syntax, so edits around the loop do not
+			// detach the rule)
+			f := strings.SplitN(sub, "|", 4)
+			nb, n, err := ownRange(src, b, f[1], f[2], f[3])
+			if err != nil {
+				return err
+			}
+			if n == 0 {
+				fmt.Fprintf(os.Stderr, "rewrite: %s: no `range %s` in %s (a map iteration order may be unowned)\n", src, f[2], f[1])
+			}
+			b = nb
+			continue
+		}
 		if o, n, ok := strings.Cut(sub, "=>"); ok && bytes.Contains(b, []byte(o)) {
 			b = bytes.ReplaceAll(b, []byte(o), []byte(n))
+		} else if ok {
+			fmt.Fprintf(os.Stderr, "rewrite: %s: substitution skipped, its left side is absent (a map iteration order may be unowned): %q\n", src, o)
 		}
 	}
 	f, err := parser.ParseFile(fset, src, b, parser.ParseComments)
@@ -178,6 +195,60 @@ func addImport(f *ast.File, name, path string) {
 	}
 	f.Decls = append([]ast.Decl{&ast.GenDecl{Tok: token.IMPORT, Specs: []ast.Spec{spec}}}, f.Decls...)
 	f.Imports = append(f.Imports, spec)
+}
+
+// ownRange rewrites the header of every range statement over mapExpr inside function fn.
+func ownRange(src string, b []byte, fn, mapExpr, label string) ([]byte, int, error) {
+	fset := token.NewFileSet()
+	f, err := parser.ParseFile(fset, src, b, 0)
+	if err != nil {
+		return nil, 0, err
+	}
+	type edit struct {
+		from, to int
+		text     string
+	}
+	var edits []edit
+	for _, d := range f.Decls {
+		fd, ok := d.(*ast.FuncDecl)
+		if !ok || fd.Body == nil || fd.Name.Name != fn {
+			continue
+		}
+		ast.Inspect(fd.Body, func(n ast.Node) bool {
+			rs, ok := n.(*ast.RangeStmt)
+			if !ok || rs.Tok != token.DEFINE {
+				return true
+			}
+			xs := string(b[fset.Position(rs.X.Pos()).Offset:fset.Position(rs.X.End()).Offset])
+			if xs != mapExpr {
+				return true
+			}
+			name := func(e ast.Expr) string {
+				if id, ok := e.(*ast.Ident); ok && id.Name != "_" {
+					return id.Name
+				}
+				return ""
+			}
+			k, v := name(rs.Key), ""
+			if rs.Value != nil {
+				v = name(rs.Value)
+			}
+			if k == "" {
+				k = "zzvK"
+			}
+			text := fmt.Sprintf("for _, %s := range sync.RangeOrder(%s, %s) {", k, mapExpr, label)
+			if v != "" {
+				text += fmt.Sprintf(" %s := %s[%s];", v, mapExpr, k)
+			}
+			edits = append(edits, edit{fset.Position(rs.For).Offset, fset.Position(rs.Body.Lbrace).Offset + 1, text})
+			return true
+		})
+	}
+	for i := len(edits) - 1; i >= 0; i-- {
+		e := edits[i]
+		b = append(append(append([]byte{}, b[:e.from]...), e.text...), b[e.to:]...)
+	}
+	return b, len(edits), nil
 }
 
 // goToThread: go fn(a, b) => pkg.Go(func() func() { v0, v1, v2 := fn, a, b; return func() { v0(v1, v2) } }())
